@@ -750,6 +750,7 @@ static void drive(const vh::Lines &ls, const char *who) {
 }
 
 #include "tuple_part.hpp"
+#include "il_part.hpp"
 
 static void body(const vh::Lines &ls) {
 	ev_reset_all();
@@ -765,6 +766,7 @@ static void body(const vh::Lines &ls) {
 	else if(ty == "uptr") drive<UptrRun>(ls, "unique_ptr");
 	else if(ty == "umem") drive<UmemRun>(ls, "unique_memory");
 	else if(ty == "tup") { if(k == 'M') tuple_case<KM>(ls); else if(k == 'C') tuple_case<KC>(ls); else tuple_case<KF>(ls); }
+	else if(ty == "il") il_case(ls);
 	else printf("badtype\n");
 }
 
